@@ -74,6 +74,22 @@ func validateJSONPatches(patches []byte) error {
 		if strings.HasPrefix(path, "/"+document.PublicKeyProperty) {
 			return fmt.Errorf("%s: cannot modify public keys", patch.JSONPatch)
 		}
+
+		// move and copy operations address a second location with 'from'
+		if fromMsg, ok := p["from"]; ok {
+			var from string
+			if fromMsg == nil || json.Unmarshal(*fromMsg, &from) != nil {
+				return fmt.Errorf("%s: invalid from", patch.JSONPatch)
+			}
+
+			if strings.HasPrefix(from, "/"+document.ServiceProperty) {
+				return fmt.Errorf("%s: cannot modify services", patch.JSONPatch)
+			}
+
+			if strings.HasPrefix(from, "/"+document.PublicKeyProperty) {
+				return fmt.Errorf("%s: cannot modify public keys", patch.JSONPatch)
+			}
+		}
 	}
 
 	return nil
